@@ -2,7 +2,7 @@
    ExtrOcamlBasic only (bool, option, list, prod, unit -> OCaml natives); N, positive, nat, Z stay
    extracted datatypes; no Extract Constant / Extract Inductive of our own. *)
 Require Import Coq.extraction.Extraction Coq.extraction.ExtrOcamlBasic.
-Require Import Pearl.Base.Prelude Pearl.Base.LE Pearl.Base.AHash Pearl.Filter.Bloom Pearl.Storage.Model Pearl.Storage.Spec Pearl.Base.Crc Pearl.Format.Record Pearl.Blob.Bytes Pearl.Index.BPTree Pearl.Index.Bytes Pearl.Io.Trace Pearl.Blob.Scan Pearl.Index.Open Pearl.Filter.Hier Pearl.Filter.Combined Pearl.Storage.Filtered Pearl.Format.Meta.
+Require Import Pearl.Base.Prelude Pearl.Base.LE Pearl.Base.AHash Pearl.Filter.Bloom Pearl.Storage.Model Pearl.Storage.Spec Pearl.Base.Crc Pearl.Format.Record Pearl.Blob.Bytes Pearl.Index.BPTree Pearl.Index.Bytes Pearl.Io.Trace Pearl.Blob.Scan Pearl.Index.Open Pearl.Filter.Hier Pearl.Filter.Combined Pearl.Storage.Filtered Pearl.Format.Meta Pearl.Filter.CombinedOpt.
 Extraction Language OCaml.
 Set Extraction KeepSingleton.
 Extraction "model.ml"
@@ -19,4 +19,5 @@ Extraction "model.ml"
   blob_open_scan dispose tool_validate_blob tool_recover index_open
   ch_new ch_step ch_offload ch_iter ch_mem ch_check cf_new cf_add range_bytes
   track cf_answer cfs_answer consulted cut_applies
-  meta_ok meta_decodes.
+  meta_ok meta_decodes
+  oh_new oh_step oh_offload oh_iter oh_mem oh_check.
